@@ -292,6 +292,17 @@ def convex_hull(
     # and if not will fix it by traversing the adjacency graph
     convex.fix_normals(multibody=False)
 
+    # `fix_normals` decides whether the mesh is inside-out from the sign of
+    # `volume`, which is integrated about the origin: for a small or thin
+    # hull a long way from the origin that sign is round-off. A convex hull
+    # contains the centroid of its surface, so measured from there the
+    # (consistently wound) faces have to enclose a positive volume.
+    outward = util.diagonal_dot(
+        convex.triangles_cross, convex.triangles_center - convex.centroid
+    ).sum()
+    if outward < 0.0:
+        convex.invert()
+
     # sometimes the QbB option will cause precision issues
     # so try the hull again without it and
     # check for qhull_options is None to avoid infinite recursion
